@@ -65,6 +65,13 @@ type sop struct {
 	Es   []int  `json:"es,omitempty"`   // -1: nil error
 	Via  int    `json:"via,omitempty"`  // newchild: 1 = through gio.NewChildIOContext (closed through IOContext.Close)
 	N    int    `json:"n,omitempty"`    // add: AddTasks(N) (0 and 1: AddTasks(1)); emitted to Coq as N single additions
+	// newchild / add in a hooked world (c11_midcall.go): End is a signalling operation that the harness
+	// issues BETWEEN two instructions of this call, at the At-th hook point (2k-1: just before, 2k: right
+	// after the k-th look of the calling goroutine at the context of scope S; End runs right after the
+	// call when the call has fewer hook points).  Fired is an observation, not an input.
+	End   *sop `json:"end,omitempty"`
+	At    int  `json:"at,omitempty"`
+	Fired bool `json:"fired,omitempty"`
 }
 
 func (p sop) delta() int {
@@ -183,6 +190,10 @@ type world struct {
 	nextLid    int
 	unsure     bool                  // a DoneTask without a task of its own was accepted (misuse stream)
 	iocs       map[int]app.IOContext // scopes owned by a gio.IOContext (sop.Via == 1 children and their parents)
+	lastFired  bool                  // the last apply issued its End at a hook point inside the call
+	hooked     bool                  // every context is wrapped in a hookCtx (c11_midcall.go)
+	arm        atomic.Value          // *hookArm: the signalling operation waiting for its hook point
+	regMaybe   []int                 // parent whose context ended DURING the child's NewChild (-1: none): the property leaves open whether that child is registered
 }
 
 var scopeHarnessIO app.IO // one inert IO for every IOContext of the scope harnesses
@@ -264,6 +275,21 @@ func (w *world) outstanding(s int) int {
 	return n
 }
 
+// outstandingMax also counts the unclosed children whose registration is open (regMaybe): a Close
+// MUST return when this is zero and must NOT return while outstanding() is positive.
+func (w *world) outstandingMax(s int) int {
+	n := w.outstanding(s)
+	for c, p := range w.regMaybe {
+		if p == s {
+			if ci, ok := w.closerOf[c]; ok && atomic.LoadInt32(&w.closers[ci].status) != 1 {
+				continue
+			}
+			n++
+		}
+	}
+	return n
+}
+
 // parkedClosers counts the goroutines parked (not running, not runnable) in Scope.Wait below
 // Scope.Close, whatever primitive the scope uses to wait (sync.WaitGroup, sync.Cond, ...).
 func parkedClosers() int {
@@ -304,7 +330,7 @@ func (w *world) settle() {
 		for _, c := range w.closers {
 			if atomic.LoadInt32(&c.status) == 1 {
 				running++
-				if !c.first || (!w.unsure && w.outstanding(c.scope) <= 0) {
+				if !c.first || (!w.unsure && w.outstandingMax(c.scope) <= 0) {
 					ok = false
 				}
 			}
@@ -389,6 +415,7 @@ func (w *world) addScope(s app.Scope, ctx, par, reg int) int {
 	w.scopeDepth = append(w.scopeDepth, d)
 	w.tasks = append(w.tasks, 0)
 	w.regOn = append(w.regOn, reg)
+	w.regMaybe = append(w.regMaybe, -1)
 	w.createdAt = append(w.createdAt, len(w.closers))
 	w.mu.Lock()
 	w.sidIdx[s.SID()] = len(w.scopes) - 1
@@ -404,13 +431,19 @@ func (w *world) apply(p sop) (out []string) {
 		}
 	}()
 	b := func(v bool) string { return "SBool " + coqBool(v) }
+	w.lastFired = false
 	switch p.K {
 	case "newctx":
 		w.addCtx(contextscope.New(), -1)
 	case "newiso":
 		w.addCtx(contextscope.NewIsolated(w.ctxs[p.S]), p.S)
 	case "newroot":
-		s := scope.New(scope.Params{})
+		var s app.Scope
+		if w.hooked {
+			s = scope.New(scope.Params{ContextScope: w.wrapCtx(contextscope.New())})
+		} else {
+			s = scope.New(scope.Params{})
+		}
 		c := w.addCtx(s.BaseContextScope(), -1)
 		w.addScope(s, c, -1, -1)
 	case "newchild":
@@ -427,21 +460,33 @@ func (w *world) apply(p sop) (out []string) {
 			w.iocs[len(w.scopes)] = ioc
 			return ioc.Scope()
 		}
+		var ch app.Scope
+		c := w.scopeCtx[p.S]
+		cp := scope.ChildParams{}
 		if p.Iso {
-			iso := contextscope.NewIsolated(par)
-			c := w.addCtx(iso, w.scopeCtx[p.S])
-			w.addScope(mk(scope.ChildParams{ContextScope: iso}), c, p.S, reg)
-		} else {
-			w.addScope(mk(scope.ChildParams{}), w.scopeCtx[p.S], p.S, reg)
+			cp.ContextScope = contextscope.NewIsolated(par)
+			if w.hooked {
+				cp.ContextScope = w.wrapCtx(cp.ContextScope)
+			}
+			c = w.addCtx(cp.ContextScope, w.scopeCtx[p.S])
 		}
+		mid, eout := w.during(p, func() { ch = mk(cp) })
+		n := w.addScope(ch, c, p.S, reg)
+		if mid && reg >= 0 {
+			// the parent's context ended between two instructions of NewChild: registered or not, both
+			// are within the property; the two sides only have to agree
+			w.regOn[n], w.regMaybe[n] = -1, reg
+		}
+		return eout
 	case "on":
 		w.scopes[p.S].On(goEvents[p.Ev], w.listener(p.Ev, p.Lid, p.Fail))
 	case "add":
-		err := w.scopes[p.S].AddTasks(p.delta())
+		var err error
+		_, eout := w.during(p, func() { err = w.scopes[p.S].AddTasks(p.delta()) })
 		if err == nil {
-			w.tasks[p.S] += p.delta()
+			w.tasks[p.S] += p.delta() // the caller was told "accepted": Close has to wait for its DoneTask
 		}
-		return []string{"SAdd " + coqBool(err == nil)}
+		return append([]string{"SAdd " + coqBool(err == nil)}, eout...)
 	case "done":
 		stolen := w.tasks[p.S] <= 0 // misuse: none of the tasks accepted here is outstanding
 		w.scopes[p.S].DoneTask()    // panics when the counter is zero
@@ -592,6 +637,7 @@ func runSeq(next func(w *world, step int) *sop, maxSteps int) seqResult {
 			cl = w.startClose(p.S)
 		} else {
 			main = w.apply(*p)
+			res.Hist[len(res.Hist)-1].Fired = w.lastFired
 		}
 		// what the bookkeeping says before the step's effects on closers are looked at
 		before := make([]int, len(w.closers))
@@ -725,6 +771,9 @@ func (r seqResult) key() string {
 	var sb strings.Builder
 	for _, p := range r.Hist {
 		fmt.Fprintf(&sb, "%s%d%v%d%d%v%d%d;", p.K, p.S, p.Iso, p.Ev, p.Fail, p.Es, p.Via, p.N)
+		if p.End != nil {
+			fmt.Fprintf(&sb, "<%s%d%v@%d>", p.End.K, p.End.S, p.End.Es, p.At)
+		}
 	}
 	return sb.String()
 }
@@ -745,6 +794,7 @@ type genCfg struct {
 	maxOps    int
 	drain     bool // finish all tasks and close every scope at the end
 	wide      bool // C11 audit: children through gio.NewChildIOContext, AddTasks(n) with n up to 3
+	race      bool // C11: hooked world; NewChild / AddTasks with a signalling operation forced in mid-call (sop.End)
 }
 
 func (w *world) returned(s int) bool {
@@ -766,7 +816,11 @@ func genNext(rng *RNG, g genCfg, o *Out) func(w *world, step int) *sop {
 	lid := 0
 	newLid := func() int { lid++; return lid }
 	var ons []sop // wide: the listeners registered so far by the random part
+	nrace := 0    // race: pairs drawn so far
 	return func(w *world, step int) *sop {
+		if step == 0 && g.race {
+			w.hooked = true
+		}
 		if setup && len(pending) == 0 {
 			setup = false
 			if g.listeners {
@@ -813,6 +867,11 @@ func genNext(rng *RNG, g genCfg, o *Out) func(w *world, step int) *sop {
 					if g.wide && rng.Chance(30) {
 						p.Via = 1
 					}
+					if g.race && nrace < 3 && rng.Chance(60) {
+						if p.End, p.At = pickEnd(rng, w, s), 1+rng.Intn(4); p.End != nil {
+							nrace++
+						}
+					}
 					return p
 				}
 			case k < 26:
@@ -841,6 +900,12 @@ func genNext(rng *RNG, g genCfg, o *Out) func(w *world, step int) *sop {
 			case k < 36:
 				if g.wide && rng.Chance(25) {
 					return &sop{K: "add", S: s, N: 2 + rng.Intn(2)}
+				}
+				if g.race && nrace < 3 && rng.Chance(40) {
+					if e := pickEnd(rng, w, s); e != nil {
+						nrace++ // at most 3 pairs in a history: 8 orders to evaluate in Coq
+						return &sop{K: "add", S: s, End: e, At: 1 + rng.Intn(4)}
+					}
 				}
 				return &sop{K: "add", S: s}
 			case k < 48:
@@ -883,7 +948,7 @@ func genNext(rng *RNG, g genCfg, o *Out) func(w *world, step int) *sop {
 			case k < 94:
 				return &sop{K: "err", S: s}
 			default:
-				if w.outstanding(s) == 0 && w.tasks[s] == 0 && !w.unsure {
+				if w.outstandingMax(s) == 0 && w.tasks[s] == 0 && !w.unsure {
 					return &sop{K: "wait", S: s}
 				}
 			}
@@ -922,6 +987,11 @@ func replayHistory(path string) (seqResult, bool) {
 	}
 	i := 0
 	r := runSeq(func(w *world, step int) *sop {
+		for _, p := range h {
+			if step == 0 && p.End != nil {
+				w.hooked = true
+			}
+		}
 		if i >= len(h) {
 			return nil
 		}
@@ -929,7 +999,11 @@ func replayHistory(path string) (seqResult, bool) {
 		return &h[i-1]
 	}, len(h)+1)
 	for k, p := range r.Hist {
-		fmt.Printf("%2d %-40s main=%v closers=%v ctxs=%v\n", k, p.coq(), r.Obs[k].Main, r.Obs[k].Closers, r.Obs[k].Ctxs)
+		what := p.coq()
+		if p.End != nil {
+			what += fmt.Sprintf(" <mid-call at hook point %d (reached: %v): %s>", p.At, p.Fired, p.End.coq())
+		}
+		fmt.Printf("%2d %-40s main=%v closers=%v ctxs=%v\n", k, what, r.Obs[k].Main, r.Obs[k].Closers, r.Obs[k].Ctxs)
 	}
 	fmt.Println("errors:", r.Errs, "ended:", r.Ended)
 	for _, e := range r.Log {
